@@ -12,6 +12,15 @@ hostile_line_text = st.lists(st.one_of(st.sampled_from(c19.HOSTILE),
                                                         '\r', '\x1c'])), max_size=8).map(''.join)
 
 
+# texts whose first line already looks like a comment (or a preprocessor line) while later ones do not
+headed_text = st.tuples(st.sampled_from(['//', '// (c) me', '/// doc', '//!', '/* c */', '#pragma once']),
+                        st.sampled_from(['\n', '\r\n', '\r', '\x0c', '\u2028']),
+                        st.sampled_from(['All rights reserved.', 'static_assert(false, "leaked");', '',
+                                         'int leaked;', '#error leaked']),
+                        hostile_line_text).map(lambda t: t[0] + t[1] + t[2] + (('\n' + t[3]) if t[3] else ''))
+any_text = st.one_of(hostile_line_text, hostile_line_text, headed_text)
+
+
 def strip_comment_lines(text):
     return [l for l in text.split('\n') if not l.startswith('//')]
 
@@ -52,8 +61,8 @@ def check_build_pair(case):
 
 def run(ctx):
     base = st.one_of(gen_cfg.model_and_spec(), gen_cfg.model_and_spec(want_mc=True))
-    texts = st.tuples(st.tuples(hostile_line_text, st.one_of(st.none(), hostile_line_text)),
-                      st.tuples(hostile_line_text, st.one_of(st.none(), hostile_line_text)))
+    texts = st.tuples(st.tuples(any_text, st.one_of(st.none(), any_text)),
+                      st.tuples(any_text, st.one_of(st.none(), any_text)))
     ctx.clause('build_pair', st.tuples(base, texts).map(
         lambda t: {'sm': t[0]['sm'], 'spec': t[0]['spec'], 'texts': [list(x) for x in t[1]]}),
         check_build_pair, ctx.n(150, 6000),
